@@ -150,7 +150,7 @@ class Run(object):
         seen = {}
         for v in sorted(self.violations, key=lambda v: not v['reproduced']):
             seen[v['obligation']] = seen.get(v['obligation'], 0) + 1
-            if seen[v['obligation']] > 1:
+            if seen[v['obligation']] > 1 or len(seen) > 12:
                 continue
             line = 'VIOLATION property=%s replay=%s' % (self.prop, v['replay'])
             if not v['reproduced']:
